@@ -66,7 +66,7 @@ Qed.
 Lemma trav_map_ro k p es st : ext_res st (trav_map true k p es st).
 Proof.
   unfold trav_map. destruct (is_wild k).
-  - apply ext_bind_pure. intros [|i idxs]; cbn; apply ext_refl.
+  - unfold trav_map_pat. apply ext_bind_pure. intros [|i idxs]; cbn; apply ext_refl.
   - destruct (find_key es k 0); cbn; apply ext_refl.
 Qed.
 
